@@ -129,7 +129,7 @@ func finalProbeMutex(m *csync.Mutex) {
 	}
 	rel, ok := m.TryLock()
 	if !ok {
-		fail("C02.leak", "TryLock fails after every holder released and every waiter returned")
+		fail("lock-leaked", "C01/C02: TryLock fails after every holder released and every waiter returned: a call that returned an error or a repeated release left the mutex locked")
 		return
 	}
 	rel()
@@ -142,7 +142,7 @@ func finalProbeRW(m *csync.RWMutex) {
 	}
 	rel, ok := m.TryLock(true)
 	if !ok {
-		fail("C02.leak", "TryLock(write) fails after every holder released and every waiter returned")
+		fail("lock-leaked", "C01/C02: TryLock(write) fails after every holder released and every waiter returned")
 		return
 	}
 	rel()
